@@ -1,6 +1,10 @@
 // Dispatcher of the multi-thread harnesses.
 #include <glog/logging.h>
 
+#include <thread>
+#include <unistd.h>
+
+#include "conc_common.h"
 #include "ykw.h"
 
 int run_lin(const vf::Args&);
@@ -22,6 +26,41 @@ int main(int argc, char** argv) {
     vf::setup_alloc(vf::alloc::Mode::FULL);
     vf::ctl::install();
     std::string mode = args.str("mode");
+    // stall watchdog: if neither a stamp was taken nor a round finished for stall_s seconds the workload is
+    // stuck (a lock left held, a reader spinning forever). That is a C09 violation for the C09 runs and an
+    // inconclusive run for every other property; either way the process ends instead of waiting for the driver.
+    {
+        uint64_t stall_s = args.num("stall_s", 60);
+        if (const char* e = getenv("VERIF_STALL_S")) { stall_s = strtoull(e, nullptr, 10); }
+        std::string prop = args.str("prop", "");
+        std::thread([stall_s, prop, mode] {
+            uint64_t last = 0;
+            double since = vf::now_s();
+            for (;;) {
+                std::this_thread::sleep_for(std::chrono::milliseconds(200));
+                uint64_t cur = vf::g_stamp.load() + vf::g_progress.load();
+                if (cur != last) {
+                    last = cur;
+                    since = vf::now_s();
+                    continue;
+                }
+                if (vf::now_s() - since < static_cast<double>(stall_s)) { continue; }
+                vf::Report rep(prop, mode + ":watchdog", 0);
+                if (prop == "C09") {
+                    rep.violation("progress:no-operation-completed", "no API call of the workload completed within the stall limit", vf::JObj().num("stall_seconds", stall_s).str("mode", mode).done());
+                } else {
+                    rep.inconclusive("workload made no progress for " + std::to_string(stall_s) + " s (stuck call); see C09");
+                }
+                rep.eval();
+                rep.distinct(1);
+                rep.distinct(2);
+                rep.sample("{\"note\":\"stall watchdog fired\"}");
+                int rc = rep.finish();
+                fflush(stdout);
+                _exit(rc);
+            }
+        }).detach();
+    }
     if (mode == "lin") { return run_lin(args); }
     if (mode == "lin_micro") { return run_lin_micro(args); }
     if (mode == "scan") { return run_scan(args); }
